@@ -69,7 +69,8 @@ Proof.
   assert (Hrooti : insd s root) by (apply (J_bins C isB s HI root Hroot)).
   assert (Hclo : forall y, insd s y -> nxf s y <> 0 -> insd s (nxf s y)).
   { intros y Hy Hn. destruct (J_cm C isB s HI y Hy) as [H|H]; [contradiction|exact H]. }
-  destruct Hk as [Hn Hi|node Hnn Hn Hi|t0 b0 u0 prev node iter _ Hpi Hnn Hn0 Hpv Hrm Hnode Hpp Hpr Hpo Hn Hi|prev iter nx Hpi Hpv Hrm Hp0 Hpn Hrn Hpp Hpr Hpo Hn Hi|n Hni Hpp Hpr Hom Hn Hi].
+  destruct Hk as [Hn Hi|node Hnn Hn Hi|t0 b0 u0 prev node iter _ Hpi Hnn Hn0 Hpv Hrm Hnode Hpp Hpr Hpo Hn Hi|prev iter nx Hpi Hpv Hrm Hp0 Hpn Hrn Hpp Hpr Hpo Hn Hi|n Hni Hpp Hpr Hom Hn Hi
+                 |t0 old new onext sz0 _ Hoi Hnn Hn0 Hov Hrm Hnew Hpp Hpr Hpo Hn Hi].
   - apply (reachf_same (nxf s) (nxf s') (fun _ => True)); [intros y _; unfold nxf; rewrite Hn; reflexivity|tauto|exact I|].
     apply HR. split; [apply Hi; exact Hxi|rewrite <- Hn; exact Hxr].
   - assert (Hxs : insd s x) by (apply Hi; exact Hxi).
@@ -104,6 +105,20 @@ Proof.
     apply (reachf_same (nxf s) (nxf s') (fun _ => True)); [|tauto|exact I|].
     + intros y _. unfold nxf. destruct (N.eq_dec y n) as [->|Hy]; [exact Hpp|rewrite (Hn y Hy); reflexivity].
     + apply HR. split; [apply Hi; exact Hxi|rewrite <- (Hn x Hxn); exact Hxr].
+  - (* replace: every path through old now goes old -> new -> old's former successor *)
+    assert (Hno : new <> old) by congruence.
+    assert (Hlo : live s old) by (split; [exact Hoi|rewrite Hov; exact Hrm]).
+    assert (Hxo : x <> old) by (intros ->; rewrite Hpr in Hxr; discriminate).
+    assert (Hre : forall a b, reachf (nxf s) a b -> reachf (nxf s') a b).
+    { intros a b. apply (reachf_ins (nxf s) (nxf s') old new).
+      - intros y Hy. unfold nxf. rewrite (Hn y Hy). reflexivity.
+      - exact Hpp.
+      - exact Hn0.
+      - exact Hno.
+      - unfold nxf. rewrite Hnew, Hov. reflexivity. }
+    destruct (proj1 (Hi x) Hxi) as [Hxs| ->].
+    + apply Hre. apply HR. split; [exact Hxs|rewrite <- (Hn x Hxo); exact Hxr].
+    + eapply reachf_trans; [apply Hre; apply HR; exact Hlo|apply reachf_step; [exact Hpp|exact Hn0]].
 Qed.
 
 Lemma R_exec (s : st) c : Inv2 s -> R s -> R (fst (exec hloc hloc_eqb (hprog C) c s)).
